@@ -24,7 +24,8 @@ RULE = ("per database (posc, simple; nocat for UnitDatabase.Convert) and per qua
         "float/int/list/tuple/ndarray and with (unit,exp) lists, Array.GetValues incl. tuple-of-tuples, CreateCopy, "
         "ChangeScalars, category default in a unit, IndexAsScalar, ChangingIndex, ConvertToCurrent, "
         "ConvertScalarToCurrent; containers of length 0-5; int64/int32 ndarrays with magnitudes beyond 2**63/coefficient "
-        "from every unit with a coefficient >= 2**31; plus derived/empty quantities and a malformed stream; "
+        "from every unit with a coefficient >= 2**31; route SEQUENCES on one Array/FixedArray (a route with a foreign "
+        "unit, the caller edits the returned container, further routes with the same / alternating units); plus derived/empty quantities and a malformed stream; "
         "distinct = distinct model line; non-trivial = succeeded with from-unit != to-unit")
 EXHAUSTIVE = {"quick": False, "thorough": False}
 ASSUMPTIONS = [
@@ -150,7 +151,7 @@ def model_line(c):
 
 
 def case_key(c):
-    return model_line(c)
+    return dict(model_line(c), pre=c["_t"].get("pre"))
 
 
 def show(c):
@@ -262,6 +263,56 @@ def _cs(s):
                 x=_hx(s.GetValue()))
 
 
+def _mutate(r, how):
+    """what a caller may do with a container it received from a route (it is a result, not the object's store)"""
+    try:
+        if isinstance(r, np.ndarray):
+            if how == "set":
+                r[0] = 12345.5
+            elif how == "scale":
+                r *= 3.0
+            elif how == "fill":
+                r.fill(-1.0)
+        elif isinstance(r, list):
+            if how == "set":
+                r[0] = 12345.5
+            elif how == "append":
+                r.append(-1.0)
+            elif how == "clear":
+                r.clear()
+            elif how == "sort":
+                r.sort(reverse=True)
+                r.pop()
+    except Exception:
+        pass
+
+
+def _pre_step(obj, st):
+    """one earlier route call on the same object; returns (result, the container the caller got hold of)"""
+    if st["route"] == "getvalues":
+        r = obj.GetValues(st["unit"])
+        return r, r
+    if st["route"] == "values_of_copy":
+        cp = obj.CreateCopy(unit=st["unit"])
+        return cp.GetValues(), cp.GetValues()
+    from barril.units import ObtainQuantity
+    return obj.IndexAsScalar(st["index"], ObtainQuantity(st["unit"], st["cat"])), None
+
+
+def _apply_pre(obj, pre, on_result=None):
+    """route SEQUENCES on one object: r1 with a foreign unit, the caller scribbles on what r1 returned, then the
+    next route; the stored values are never touched (a container that IS the store is left alone)"""
+    for k, st in enumerate(pre or []):
+        r, container = _pre_step(obj, st)
+        if on_result is not None:
+            bad = on_result(k, st, r)
+            if bad:
+                return bad
+        if container is not None and st.get("mutate") and container is not obj.GetValues():
+            _mutate(container, st["mutate"])
+    return None
+
+
 def _run(c, ctx):
     """the real route; returns the raw Python result (exceptions propagate)"""
     from barril.units import ChangeScalars, Scalar
@@ -278,14 +329,17 @@ def _run(c, ctx):
         if op == "db_convert":
             return db.Convert(_mk_catarg(t["cq"]), _mk_unitarg(t["from"]), _mk_unitarg(t["to_arg"]), _mk_val(t["val"]))
         if op == "array_getvalues":
-            a = _mk_array(t["q"], t["val"])
+            a = _mk_fixed(t["dim"], t["q"], t["val"]) if t.get("dim") else _mk_array(t["q"], t["val"])
+            _apply_pre(a, t.get("pre"))
             return a.GetValues(t["unit"]) if t.get("unit") is not None else a.GetValues()
         if op == "create_copy":
             kw = {k: t[k] for k in ("value", "unit", "category") if t.get(k) is not None}
             return _mk_scalar(t["q"], t["x"]).CreateCopy(**kw)
         if op == "array_create_copy":
             kw = {k: t[k] for k in ("unit", "category") if t.get(k) is not None}
-            return _mk_array(t["q"], t["val"]).CreateCopy(**kw)
+            a = _mk_fixed(t["dim"], t["q"], t["val"]) if t.get("dim") else _mk_array(t["q"], t["val"])
+            _apply_pre(a, t.get("pre"))
+            return a.CreateCopy(**kw)
         if op == "default_scalar":
             if t.get("def_unit") is not None:
                 ci = db.GetCategoryInfo(t["c"])
@@ -302,11 +356,13 @@ def _run(c, ctx):
             return [(a["name"], getattr(o, a["name"])) for a in t["owner"]]
         if op == "index_as_scalar":
             fa = _mk_fixed(t["dim"], t["q"], t["val"])
+            _apply_pre(fa, t.get("pre"))
             if t.get("quantity") is not None:
                 return fa.IndexAsScalar(t["index"], _mk_q(t["quantity"]))
             return fa.IndexAsScalar(t["index"])
         if op == "changing_index":
             fa = _mk_fixed(t["dim"], t["q"], t["val"])
+            _apply_pre(fa, t.get("pre"))
             nv = t["nv"]
             if nv["k"] == "number":
                 value = nv["x"]
@@ -808,6 +864,58 @@ def _int_array_stream(ctx, salt, per_row):
                                 nv=dict(k="scalar", q=_sq(rng.choice(cats), v), x=2.5), use_value_unit=True, _nt=nt)
 
 
+def _seq_stream(ctx, salt, n):
+    """route sequences on ONE Array / FixedArray: a route with a foreign unit, the caller edits the container it got
+    (element, append, clear, sort, in-place arithmetic), then further routes with the same unit or with two units
+    alternating; the last route of the sequence is the case's op (compared with the stateless model on the stored
+    values), every earlier one is checked by the oracle"""
+    rng = ctx.fresh_rng("C02seq" + salt)
+    for _ in range(n):
+        kind = rng.choice(("posc", "posc", "simple"))
+        db = ctx.dbs[kind]
+        qts = sorted(qt for qt in db.quantity_types if ctx.cats_of_type[kind].get(qt) and len(db.quantity_types[qt]) >= 2)
+        qt = rng.choice(qts)
+        units = [i.unit for i in db.quantity_types[qt]]
+        cats = ctx.cats_of_type[kind][qt]
+        c = rng.choice(cats)
+        u = rng.choice(units)
+        foreign = [w for w in units if w != u]
+        v1 = rng.choice(foreign)
+        v2 = rng.choice(foreign)
+        fixed = rng.random() < 0.5
+        L = rng.randrange(2, 6) if fixed else rng.randrange(1, 6)
+        xs = [float(y) for y in _values(db, qt, u, rng, L, ints=False)]
+        fk = rng.choice(("list", "list", "nd", "nd", "tuple"))
+        val = _flat(fk, xs)
+        muts = ("set", "append", "clear", "sort") if fk == "list" else ("set", "scale", "fill")
+        pre = []
+        pattern = rng.choice(("same", "same", "same", "alternate"))
+        for k in range(rng.randrange(1, 4)):
+            w = v1 if (pattern == "same" or k % 2 == 0) else v2
+            route = rng.choice(("getvalues", "getvalues", "values_of_copy") + (("index_as_scalar",) if fixed else ()))
+            st = dict(route=route, unit=w, mutate=rng.choice(muts))
+            if route == "index_as_scalar":
+                st.update(index=rng.randrange(-L, L), cat=rng.choice(cats), mutate=None)
+            pre.append(st)
+        if not any(st["mutate"] for st in pre):
+            pre.insert(0, dict(route="getvalues", unit=v1, mutate=rng.choice(muts)))
+        last = v1 if (pattern == "same" or rng.random() < 0.5) else v2
+        q = _sq(c, u)
+        extra = dict(dim=L) if fixed else {}
+        z = rng.randrange(4 if fixed else 2)
+        if z == 0:
+            yield _case("array_getvalues", db=kind, q=q, val=val, unit=last, pre=pre, _nt=True, **extra)
+        elif z == 1:
+            yield _case("array_create_copy", db=kind, q=q, val=val, unit=last, category=None, pre=pre, _nt=True, **extra)
+        elif z == 2:
+            yield _case("index_as_scalar", db=kind, dim=L, q=q, val=val, index=rng.randrange(-L, L), quantity=_sq(rng.choice(cats), last),
+                        pre=pre, _nt=True)
+        else:
+            yield _case("changing_index", db=kind, dim=L, q=q, val=val, index=rng.randrange(-L, L),
+                        nv=dict(k="scalar", q=_sq(rng.choice(cats), last), x=float(rng.uniform(-50, 50))), use_value_unit=True,
+                        pre=pre, _nt=True)
+
+
 def cases(ctx):
     quick = ctx.tier == "quick"
     ctx.notes["streams"] = {}
@@ -817,6 +925,7 @@ def cases(ctx):
                       ("all_pairs_sampled_routes", iter(()) if quick else _main_stream(ctx, "pairs", 0, True, 4)),
                       ("derived_empty", _derived_stream(ctx, "corr", 150 if quick else 1500)),
                       ("integer_ndarrays", _int_array_stream(ctx, "corr", 4 if quick else 25)),
+                      ("route_sequences_on_one_object", _seq_stream(ctx, "corr", 600 if quick else 6000)),
                       ("malformed", _malformed_stream(ctx, "corr", 400 if quick else 4000))):
         for c in gen:
             out.append(c)
@@ -902,12 +1011,47 @@ def _check_vals(db, cq, u, v, val, r, clause):
     return None
 
 
+def _seq_oracle(c, ctx):
+    """every earlier route of a sequence on one object must already equal the float conversion of the STORED values,
+    element by element and with the stored length, whatever the caller did with earlier results"""
+    t = c["_t"]
+    db = ctx.dbs[t["db"]]
+    if t["q"]["k"] != "s" or any(isinstance(e, list) for e in t["val"].get("es", [])):
+        return None
+    xs = _flat_items(t["val"])
+    try:
+        with _Pushed(db):
+            try:
+                q = _mk_q(t["q"])
+                cat, own = q.GetCategory(), q.GetUnit()
+                for st in t["pre"]:
+                    _ref(db, cat, own, st["unit"], 1.0)
+                obj = _mk_fixed(t["dim"], t["q"], t["val"]) if t.get("dim") else _mk_array(t["q"], t["val"])
+            except Exception:
+                return None  # not a convertible pair / not constructible: outside the property
+
+            def on_result(k, st, r):
+                where = "step %d of a route sequence on one object: %s(%s)" % (k + 1, st["route"], st["unit"])
+                if st["route"] == "index_as_scalar":
+                    bad, _w = _near(db, cat, own, st["unit"], r.GetValue(), xs[st["index"]])
+                    return dict(clause=where, index=st["index"], **bad) if bad else None
+                return _check_vals(db, cat, own, st["unit"], t["val"], r, where)
+
+            return _apply_pre(obj, t["pre"], on_result)
+    except Exception as e:
+        return dict(clause="a route of a sequence on one object raised for a convertible unit pair", error=repr(e)[:300])
+
+
 def oracle(c, ctx):
     """C02 on the real code: every route against UnitDatabase.Convert on floats, category/type kept,
     default-in-unit, own unit unchanged.  None = holds or the input is outside the property's scope."""
     t, op = c["_t"], c["op"]
     db = ctx.dbs[t["db"]]
     from barril.units import ObtainQuantity
+    if t.get("pre"):
+        bad = _seq_oracle(c, ctx)
+        if bad:
+            return bad
     try:
         with _Pushed(db):
             # ---- the unit pair the case is about
@@ -1162,6 +1306,7 @@ def oracle(c, ctx):
 def search(ctx):
     quick = ctx.tier == "quick"
     yield from _main_stream(ctx, "search", 2 if quick else 4, False, None)
+    yield from _seq_stream(ctx, "search", 400)
     yield from _int_array_stream(ctx, "search", 6)
     yield from _derived_stream(ctx, "search", 300)
     if not quick:
